@@ -7,7 +7,7 @@ from hypothesis import strategies as st
 
 from ..core import Clause, Discard, HarnessError, Violation, call, require
 from ..oracles import windows_ref as ref
-from ..strategies import build_window, floats, log_uniform
+from ..strategies import build_window, floats, fragile_widths, log_uniform
 
 PROPERTY = "C20"
 LEVEL = "exploration"
@@ -122,7 +122,7 @@ def check_window(case):
 
 
 def _widths():
-    return st.one_of(st.integers(0, 4096), st.integers(65, 4096), st.integers(0, 64),
+    return st.one_of(st.integers(0, 4096), st.integers(65, 4096), st.integers(0, 64), fragile_widths(4097),
                      st.sampled_from([0, 1, 2, 3, 4, 5, 255, 256, 257, 400, 512, 1024, 4095, 4096]))
 
 
